@@ -31,9 +31,9 @@ Definition flights_logged (s : state) : Prop :=
     | _ => True
     end.
 
-Definition item_ok (L1 : list event) (host ks : key) (it : key * option (list Z) * Z) : Prop :=
+Definition item_ok (L1 : list event) (host ks : key) (it : key * option (list Z * Z) * Z) : Prop :=
   match it with
-  | (st, Some id, n) => exists f t meta, key_for t = key_for (mkTriple host ks st) /\ returned_in L1 f t id n meta
+  | (st, Some (id, meta), n) => exists f t, key_for t = key_for (mkTriple host ks st) /\ returned_in L1 f t id n meta
   | _ => True
   end.
 
@@ -192,7 +192,7 @@ Proof.
   intros FL H. induction H as [|en og ens gs H1 H2 IH]; simpl; constructor; [|assumption].
   destruct og as [g|]; simpl; [|exact Logic.I].
   destruct H1 as [_ [_ [HN [fl [A [B C]]]]]].
-  exists (g_fid g), (fl_triple fl), (g_meta g). split; [assumption|]. rewrite HN. eapply FL; eauto.
+  exists (g_fid g), (fl_triple fl). split; [assumption|]. rewrite HN. eapply FL; eauto.
 Qed.
 
 Lemma sends_ok_step s l s' :
